@@ -58,6 +58,8 @@ func normalize(network Network, proto Protocol, req, resp *dns.Msg, maxMsgSize u
 			Hdr: dns.RR_Header{
 				Name:   ".",
 				Rrtype: dns.TypeOPT,
+				// The class field of an OPT record is the UDP payload size.
+				Class: ednsUDPSize,
 			},
 			Option: filterUnsupportedOptions(reqOpt.Option),
 		}
